@@ -10,7 +10,9 @@ PAYLOADS = ["pl", "a==b", "==", "SELECT", "CURRENT DATE", "CURRENT TIMESTAMP x",
             "caſe", "exıſtſ", "ıſ", "ﬁrst", "straße", "İd", "\u212a", "ſelect", "uſıng",
             "a\\tb", "\\d+", "C:\\\\dir", "\\\\", "x\\%y", "\\n\\r", "\\", "ab\\",
             # the names the function parser looks at AFTER stripping the back-quotes (parser.py:557-587): a back-quoted `cast` is read as the CAST keyword (F-C06-6)
-            "cast", "CAST", "extract", "if", "substring", "count", "Sum", "max"]
+            "cast", "CAST", "extract", "if", "substring", "count", "Sum", "max",
+            # runs of blanks (a printer that tidies its own layout with a text replace reaches into the payload)
+            "a  b", "x   y", "  ", " a  "]
 # region kind -> (open, close, forbidden substrings)
 REGIONS = {"sq": ("'", "'", ["'"]), "dq": ('"', '"', ['"']), "bq": ("`", "`", ["`"]), "block": ("/*", "*/", ["*/", "*"]),
            "dash": ("-- ", "\n", ["\n", "\r"]), "hash": ("# ", "\n", ["\n", "\r"])}
@@ -39,6 +41,24 @@ TEMPLATES = [(("sq", "dq"), "SELECT {R} FROM t"), (("sq", "dq"), "SELECT a FROM 
              (("bq",), "SELECT (SELECT {R} FROM u) FROM (SELECT {R} FROM v) q"), (("bq",), "CREATE TABLE {R} ({R} int, PRIMARY KEY ({R}))"), (("bq",), "ALTER TABLE {R} DROP COLUMN {R}"),
              (("bq",), "SELECT a FROM t ORDER BY {R}, {R} DESC"), (("bq",), "SELECT f(a) OVER (PARTITION BY {R} ORDER BY {R}) FROM t GROUP BY {R}"),
              (("block", "dash", "hash"), "SELECT CASE a {R} WHEN 1 THEN 2 {R} ELSE 3 END FROM t"), (("block", "dash", "hash"), "SELECT a FROM (SELECT 1 {R}) q {R} WHERE a = 1")]
+
+
+# the rarely used statement classes, each under the dialects whose printer prints it (their printers are code paths of their own: seeded C06-11)
+RARE_TEMPLATES = [(("sq", "dq"), "ANALYZE TABLE t PARTITION (dt = {R}) COMPUTE STATISTICS", ("HIVE",)), (("bq",), "ANALYZE TABLE {R} COMPUTE STATISTICS NOSCAN", ("HIVE", "MYSQL")),
+                  (("bq",), "ANALYZE TABLE t PARTITION ({R} = 1, {R}) COMPUTE STATISTICS FOR COLUMNS", ("HIVE",)),
+                  (("sq", "dq"), "ALTER TABLE t ADD IF NOT EXISTS PARTITION (dt = {R}, hr = {R})", ("HIVE", "MYSQL")), (("sq", "dq"), "ALTER TABLE t DROP IF EXISTS PARTITION (dt = {R})", ("HIVE", "MYSQL")),
+                  (("bq",), "ALTER TABLE {R} DROP PARTITION ({R} = 1)", ("HIVE", "MYSQL")), (("bq",), "ALTER TABLE t RENAME COLUMN {R} TO {R}", ("MYSQL", "HIVE")),
+                  (("sq", "dq"), "ALTER TABLE t MODIFY c varchar(9) DEFAULT {R} COMMENT {R}", ("MYSQL",)), (("bq",), "ALTER TABLE t CHANGE {R} {R} int", ("MYSQL", "HIVE")),
+                  (("sq", "dq"), "ALTER TABLE t ADD KEY k (a) COMMENT {R}", ("MYSQL",)),
+                  (("bq",), "DROP TABLE IF EXISTS {R}", ("MYSQL", "HIVE")), (("bq",), "TRUNCATE TABLE {R}", ("MYSQL", "HIVE")), (("bq",), "MSCK REPAIR TABLE {R}", ("HIVE",)),
+                  (("sq", "dq"), "SET a.b = {R}", ("HIVE", "MYSQL")), (("sq", "dq"), "SHOW COLUMNS FROM t WHERE a = {R}", ("MYSQL",)), (("bq",), "SHOW COLUMNS FROM {R} WHERE {R} = 1", ("MYSQL",)),
+                  (("sq", "dq"), "CREATE TABLE IF NOT EXISTS t AS SELECT {R} AS a FROM u WHERE b = {R}", ("MYSQL", "HIVE")), (("bq",), "CREATE TABLE {R} AS SELECT {R} FROM {R}", ("MYSQL", "HIVE")),
+                  (("sq", "dq"), "CREATE TABLE t (a int) PARTITIONED BY (dt string COMMENT {R}) STORED AS ORC TBLPROPERTIES ({R}={R})", ("HIVE",)),
+                  (("sq", "dq"), "CREATE TABLE t (a int, KEY k (a) USING BTREE COMMENT {R}) ENGINE=InnoDB COMMENT={R}", ("MYSQL",)),
+                  (("sq", "dq"), "INSERT OVERWRITE TABLE t PARTITION (dt = {R}, hr) SELECT a FROM u", ("HIVE",)), (("sq", "dq"), "INSERT IGNORE INTO t (a) VALUES ({R}), ({R})", ("MYSQL",)),
+                  (("sq", "dq"), "SELECT a FROM t LATERAL VIEW OUTER explode(split(b, {R})) v AS x, y", ("HIVE",)), (("sq", "dq"), "SELECT a FROM t ORDER BY f({R}) DESC NULLS LAST LIMIT 1", ("MYSQL", "HIVE")),
+                  (("sq", "dq"), "SELECT SUM(a) OVER (PARTITION BY f({R}) ORDER BY b ROWS BETWEEN 1 PRECEDING AND CURRENT ROW) FROM t", ("MYSQL", "HIVE")),
+                  (("sq", "dq"), "SELECT a FROM t GROUP BY f({R}) GROUPING SETS ((f({R})), ())", ("HIVE",)), (("sq", "dq"), "SELECT m[{R}], CAST({R} AS DECIMAL(10, 2)), EXTRACT(YEAR FROM {R}) FROM t", ("HIVE",))]
 
 
 def ok_payload(kind, p):
@@ -85,6 +105,11 @@ def run(ctx):
             for p1 in PAYLOADS:
                 for d in (pfam.DIALECTS if not ctx.quick else [r.choice(pfam.DIALECTS)]):
                     add(kinds, tmpl, kind, p1, r.choice(PAYLOADS), d)
+    for kinds, tmpl, ds in RARE_TEMPLATES:
+        for kind in kinds:
+            for p1 in PAYLOADS:
+                for d in (ds if not ctx.quick else [r.choice(ds)]):
+                    add(kinds, tmpl, kind, p1, r.choice(PAYLOADS), d)
     ctx.count("cases:systematic", len(cases))
     while len(cases) < n + (0 if not ctx.quick else 3500):
         kinds, tmpl = r.choice(TEMPLATES)
@@ -99,7 +124,7 @@ def run(ctx):
         cls = finding_class(d, [p1, p2])
         if cls is None and kind == "bq" and "{R}(" in tmpl and any(p.upper() in ("CAST", "EXTRACT", "IF", "SUBSTRING", "COUNT", "SUM", "MAX", "MIN", "AVG") for p in (p1, p2)):
             cls = "backquoted-function-name-read-as-keyword"
-        if cls is None and kind == "bq" and any(p.count(".") == 1 for p in (p1, p2)) and any(k in tmpl for k in ("FROM {R}", "UPDATE {R}", "INTO {R}", "{R}(", "TABLE {R}")):
+        if cls is None and kind == "bq" and any(p.count(".") == 1 for p in (p1, p2)) and any(k in tmpl for k in ("FROM {R}", "UPDATE {R}", "INTO {R}", "{R}(", "TABLE {R}", "EXISTS {R}")):
             cls = "dot-in-backquoted-table-or-function-name"
         def fail(sig, detail):
             # a pair whose payloads contain what a known pre-pass defect rewrites is attributed to that defect, whatever the symptom
